@@ -59,7 +59,7 @@ func writeManifest() error {
 		PropertyID string `json:"property_id"`
 		Reason     string `json:"reason"`
 	}
-	var nas []na
+	nas := []na{}
 	for _, x := range rules.NotApplicable {
 		if rules.Get(x[0]) == nil {
 			nas = append(nas, na{x[0], x[1]})
